@@ -27,6 +27,13 @@ func genBytesAlpha(rt *rapid.T, label string, maxTok int) []byte {
 func TestC10Escape(t *testing.T) {
 	rapidCheck(t, "C10Escape", func(rt *rapid.T) interface{} {
 		b := genBytesAlpha(rt, "in", 40)
+		if rapid.IntRange(0, 24).Draw(rt, "bigin") == 9 {
+			// a big input (size thresholds) that ends in the first bytes of a
+			// marker or of another multi-byte sequence
+			bulk := genBulkOp(rt, &opConfig{bytesAlpha: true}, "bulk").S
+			tail := [][]byte{{0xE2}, {0xE2, 0x80}, {0xC3}, {0xF0, 0x9F}, []byte(startS), {}}[rapid.IntRange(0, 5).Draw(rt, "bigtail")]
+			b = append(append(append([]byte(nil), b...), bulk...), tail...)
+		}
 		s := &EscSpec{In: b, Start: -1}
 		if rapid.Bool().Draw(rt, "internal") {
 			s.Start = rapid.IntRange(0, len(b)).Draw(rt, "start")
